@@ -165,7 +165,7 @@ func tBool(t Task, k string) bool {
 	return b
 }
 
-func tList(t Task, k string) []interface{} {
+func tArr(t Task, k string) []interface{} {
 	l, _ := t[k].([]interface{})
 	return l
 }
